@@ -138,10 +138,15 @@ def build_layer(ds, l, S):
     raise KeyError(w)
 
 
-def build_inner(spec):
+def build_root(spec):
     root = spec["root"]
     cols = [build_collator(c, spec.get("mode", "x")) for c in root.get("col", [])] or None
-    ds = toy_root(root["kind"], root["N"], root["S"], collators=cols)
+    return toy_root(root["kind"], root["N"], root["S"], collators=cols)
+
+
+def build_inner(spec, root_ds=None):
+    root = spec["root"]
+    ds = build_root(spec) if root_ds is None else root_ds
     for l in spec["layers"]:
         ds = build_layer(ds, l, root["S"])
     return ds
@@ -152,6 +157,12 @@ def build_stack(spec):
     from kappadata.wrappers import ModeWrapper
     if "interleaved" in spec:
         from kappadata.samplers.interleaved_sampler import _InterleavedConcatDataset
+        if spec.get("share_root"):
+            # main and interleaved datasets over ONE root object (the train set as main dataset and for a periodic
+            # evaluation), each under its own wrapper stack; the root is described by the first sub-stack
+            shared = build_root(spec["interleaved"][0])
+            return _InterleavedConcatDataset([ModeWrapper(build_inner(s, shared), mode=s["mode"])
+                                              for s in spec["interleaved"]])
         return _InterleavedConcatDataset([build_stack(s) for s in spec["interleaved"]])
     return ModeWrapper(build_inner(spec), mode=spec["mode"])
 
@@ -170,7 +181,7 @@ def stack_len(spec):
 
 def spec_sig(spec):
     if "interleaved" in spec:
-        return "IL[" + "|".join(spec_sig(s) for s in spec["interleaved"]) + "]"
+        return ("ILshared[" if spec.get("share_root") else "IL[") + "|".join(spec_sig(s) for s in spec["interleaved"]) + "]"
 
     def lsig(l):
         w = l["w"]
